@@ -33,7 +33,9 @@ class IntersectionDomain(Domain):
     def __call__(self, **data):
         domain_a = self.domain_a(**data)
         domain_b = self.domain_b(**data)
-        return IntersectionDomain(domain_a, domain_b)
+        return self._evaluate_user_volume(
+            IntersectionDomain(domain_a, domain_b), **data
+        )
 
     def _contains(self, points, params=Points.empty()):
         in_a = self.domain_a._contains(points, params)
